@@ -193,6 +193,12 @@ def CRes.bind (r : CRes) (f : ChanState → CRes) : CRes :=
   | none => f r.c
   | some _ => r
 
+/-- `self[channel][-1].targets == qubits_set`. -/
+def sameTargets (c : ChanState) (qs : List Nat) : Bool :=
+  match c.slots.getLast? with
+  | some l => decide (l.targets = qs)
+  | none => false
+
 /-- `_Schedule.add_target` on one channel (mutation order kept: the fall wait
 is appended before the target comparison and before any later check). -/
 def addTarget (maxSeq : Option Nat) (c : ChanState) (qs : List Nat) : CRes :=
@@ -200,23 +206,24 @@ def addTarget (maxSeq : Option Nat) (c : ChanState) (qs : List Nat) : CRes :=
     CRes.lift c (do
       checkDuration maxSeq 0
       .ok { c with slots := c.slots ++ [⟨.target, -1, 0, qs⟩] })
+  else if sameTargets c qs then
+    -- retargeting to the same qubits inserts nothing (checked before the fall wait: repair of F4)
+    ⟨c, none⟩
   else
     (CRes.lift c (waitForFall maxSeq c)).bind fun c =>
       CRes.lift c (do
         let last ← c.last
-        if last.targets = qs then .ok c
-        else
-          let ti := last.tf
-          let retarget : Int := c.cfg.minRetarget
-          let elapsed := ti - c.lastTarget
-          -- np.clip(retarget - elapsed, 0, retarget)
-          let delta0 : Int := min (max (retarget - elapsed) 0) retarget
-          let delta1 : Int :=
-            if c.cfg.fixedRetarget ≠ 0 then max delta0 c.cfg.fixedRetarget else delta0
-          let delta ← if delta1 ≠ 0 then c.adjust delta1.toNat else pure 0
-          let tf := ti + delta
-          checkDuration maxSeq tf
-          .ok { c with slots := c.slots ++ [⟨.target, ti, tf, qs⟩] })
+        let ti := last.tf
+        let retarget : Int := c.cfg.minRetarget
+        let elapsed := ti - c.lastTarget
+        -- np.clip(retarget - elapsed, 0, retarget)
+        let delta0 : Int := min (max (retarget - elapsed) 0) retarget
+        let delta1 : Int :=
+          if c.cfg.fixedRetarget ≠ 0 then max delta0 c.cfg.fixedRetarget else delta0
+        let delta ← if delta1 ≠ 0 then c.adjust delta1.toNat else pure 0
+        let tf := ti + delta
+        checkDuration maxSeq tf
+        .ok { c with slots := c.slots ++ [⟨.target, ti, tf, qs⟩] })
 
 /-- Inner loop of `_find_add_delay` over the reversed slots of one other channel. -/
 def findAddDelayChan (rise2 : Nat) (inEom : Bool) (myTargets : List Nat) (waitAll : Bool)
